@@ -431,5 +431,44 @@ def r19_7(ctx):
      ctx.bad(construct, f"the pattern `{pat}` demands something after `project(`: calls with a variable or quoted argument are not recognised and the project is attributed "
              "to the enclosing one", r.loc(pats[0])))
 
+def r19_8(ctx):
+    """R19.8 (a) what is checked does not depend on how the files were named: kconfcheck.main() reaches _prepare_deprecated_options() - which
+    adds the files found under `--includes` - whatever the positional file list holds (no early exit on an empty list before it);
+    (b) a file's project is found by walking up to the file-system root: the upward walk of _find_project_root() ends only at the
+    root (`parent == path`) or at a project marker - not at a `.git` or any other probe of the directories on the way, which would
+    make the verdict depend on where the tree is checked out."""
+    from .common import expand_locals, parse_key
+    repo = ctx.repo
+    m = repo.func("kconfcheck.core:main")
+    ctx.analysed(m.qual)
+    fl = Flow(m.node, resolver=Resolver(m.node)).run()
+    calls = [n for n in ast.walk(m.node) if isinstance(n, ast.Call) and ast.unparse(n.func).endswith("_prepare_deprecated_options")]
+    if not calls:
+        raise AnchorError("kconfcheck.main: no call of _prepare_deprecated_options")
+    construct = "kconfcheck.main/_prepare_deprecated_options() is reached whatever the positional file list holds"
+    gs = fl.guards_at(calls[0]) or set()
+    # the positional file list is the last argument (includes, exclude_submodules, files)
+    args = {x.id for a in calls[0].args[-1:] for x in ast.walk(a) if isinstance(x, ast.Name)}
+    dep = sorted(f"{'' if p else 'not '}({k})" for k, p in gs if {x.id for x in ast.walk(parse_key(k)) if isinstance(x, ast.Name)} & args)
+    (ctx.bad(construct, f"the call is reached only under {dep}: with `--includes DIR` and no positional file nothing is collected, nothing is checked and the exit "
+             "status is 0", m.loc(calls[0])) if dep else ctx.ok(construct, m.loc(calls[0])))
+    f = repo.func(f"{MOD}:_find_project_root")
+    ctx.analysed(f.qual)
+    loops = [n for n in ast.walk(f.node) if isinstance(n, ast.While)]
+    if not loops:
+        raise AnchorError("_find_project_root: no upward loop")
+    ff = Flow(f.node, resolver=Resolver(f.node)).run()
+    exits = [n for n in ast.walk(loops[0]) if isinstance(n, (ast.Break, ast.Return))]
+    construct = "_find_project_root/the upward walk ends only at the root, a project marker or a cached answer"
+    bad = None
+    for e in exits:
+        for k, p in (ff.guards_at(e) or set()):
+            full = expand_locals(f.node, parse_key(k))
+            if any(t in full for t in ("isdir(", "exists(", "isfile(", "listdir(", "islink(", "os.stat(", "os.access(")) and "_is_project_root" not in full:
+                bad = (e, full)
+    (ctx.bad(construct, f"the walk stops under `{bad[1][:80]}`: the nearest project root of a file depends on other directories on the way up (a checkout boundary), "
+             "not only on the project markers", f.loc(bad[0])) if bad else ctx.ok(construct, f.loc(loops[0]), exits=len(exits)))
+
+
 def rules():
-    return [("R19.7", r19_7, 3), ("R19.6", r19_6, 1), ("R19.1", r19_1, 3), ("R19.2", r19_2, 7), ("R19.3", r19_3, 4), ("R19.4", r19_4, 3), ("R19.5", r19_5, 8)]
+    return [("R19.8", r19_8, 2), ("R19.7", r19_7, 3), ("R19.6", r19_6, 1), ("R19.1", r19_1, 3), ("R19.2", r19_2, 7), ("R19.3", r19_3, 4), ("R19.4", r19_4, 3), ("R19.5", r19_5, 8)]
